@@ -45,6 +45,11 @@ def inputs(ctx):
         for lv in LEVELS[c["writer"]]:
             ins.append({"id": "g%d" % n, "case": c, "level": lv})
             n += 1
+            if c["writer"] == "SAMI" and lv == "set" and c["lay"]["p"]["cls"] != "none" and n % 3 == 0:
+                # what SAMIReader leaves behind: the P rule's margins both in the layout and in the
+                # style's own rules (as written, absolute)
+                ins.append({"id": "g%d" % n, "case": c, "level": lv, "pm": True})
+                n += 1
     units = ["px", "em", "%", "c", "pt"]
     # lengths whose percentage is, up to float noise or a few thousandths, a multiple of ten (printed
     # "30%", not "3%" or "30.0%"), for every unit and writer
@@ -168,6 +173,11 @@ def execute(inp):
     cap = Caption(1_000_000, 2_000_000, nodes, style={}, layout_info=L if lv == "caption" else None)
     cl = CaptionList([cap], layout_info=L if lv == "language" else None)
     styles = {"p": {"color": "white"}} if c["writer"] == "SAMI" else {}
+    if inp.get("pm") and L.padding:
+        for css, part in (("margin-top", L.padding.before), ("margin-right", L.padding.end), ("margin-bottom", L.padding.after),
+                          ("margin-left", L.padding.start)):
+            if part is not None:
+                styles["p"][css] = str(part)
     cs = CaptionSet({"en-US": cl}, styles=styles, layout_info=L if lv == "set" else None)
     rec = {"k": "rel", "lay": c["lay"], "W": c["W"], "H": c["H"], "relativize": c["relativize"], "fit": c["fit"],
            "writer": c["writer"], "abs": False, "sees": {"eh": c["writer"] != "SAMI"}, "obs": _none8()}
